@@ -153,7 +153,27 @@ func (c *caseT) round2(m *member) {
 	dev := ""
 	malformed := []int{}
 	if !m.honest && len(enc) > 0 && r.Chance(1, 2) {
-		switch r.Intn(4) {
+		switch r.Intn(5) {
+		case 4: // a well-formed ciphertext whose plaintext is not a scalar of the group (all ones): the recipient's complaint must be upheld
+			k := r.Intn(len(enc))
+			rid := tss.MemberID(k + 1)
+			if rid >= m.id {
+				rid++
+			}
+			ks, err := tss.ComputeSecretSym(m.r1.OneTimePrivKey, pubs[int(rid)-1])
+			fx.Must(err)
+			bad := make([]byte, 32)
+			for i := range bad {
+				bad[i] = 0xff
+			}
+			if r.Bool() {
+				bad = make([]byte, 32) // zero
+			}
+			e2, err := tss.Encrypt(tss.Scalar(bad), ks, tss.DefaultNonce16Generator{})
+			fx.Must(err)
+			enc[k] = e2
+			m.corrupt[rid] = true
+			dev = "out-of-range-share"
 		case 3: // a share that is not 48 bytes, at any position (message validation must reject the whole submission)
 			k := r.Intn(len(enc))
 			enc[k] = tss.EncSecretShare(r.Bytes(r.PickInt(0, 1, 47, 49, 96)))
@@ -198,10 +218,9 @@ func (c *caseT) round2(m *member) {
 		ks, err := tss.ComputeSecretSym(o.r1.OneTimePrivKey, m.r1.OneTimePubKey)
 		fx.Must(err)
 		sh, err := tss.DecryptSecretShare(enc[slot], ks)
-		if err != nil && len(malformed) > 0 {
-			continue // a malformed share decrypts to nothing
+		if err != nil {
+			continue // a share that decrypts to nothing (malformed, or refused by the decryption routine)
 		}
-		fx.Must(err)
 		truth = append(truth, []any{uint64(o.id), uint64(slot), hx(sh)})
 	}
 	if e == "" {
@@ -233,7 +252,31 @@ func (c *caseT) round3(m *member) {
 	r := c.r
 	gr := c.groupResult()
 	priv, complaints, err := cylgroup.GetOwnPrivKeyForVerif(cylstore.DKG{GroupID: c.gid, MemberID: m.id, Coefficients: m.r1.Coefficients, OneTimePrivKey: m.r1.OneTimePrivKey}, gr)
-	fx.Must(err)
+	if err != nil {
+		// the member's client could not work out its key (a share it cannot even decrypt): following the protocol it
+		// complains about every dealer whose share it cannot decrypt — the complaint needs only the symmetric key and its proof
+		c.tr.Tag("client-error")
+		complaints = nil
+		for _, o := range c.ms {
+			if o.id == m.id {
+				continue
+			}
+			enc, e1 := gr.GetEncryptedSecretShare(o.id, m.id)
+			if e1 != nil {
+				continue
+			}
+			ks, e2 := tss.ComputeSecretSym(m.r1.OneTimePrivKey, o.r1.OneTimePubKey)
+			fx.Must(e2)
+			if _, e3 := tss.DecryptSecretShare(enc, ks); e3 != nil {
+				sig, keySym, e4 := tss.SignComplaint(m.r1.OneTimePubKey, o.r1.OneTimePubKey, m.r1.OneTimePrivKey)
+				fx.Must(e4)
+				complaints = append(complaints, tsstypes.Complaint{Complainant: m.id, Respondent: o.id, KeySym: keySym, Signature: sig})
+			}
+		}
+		if len(complaints) == 0 {
+			return
+		}
+	}
 	sender, who := c.senderFor(m)
 	// deviations of a dishonest member in round 3
 	if !m.honest && r.Chance(1, 2) && c.n > 1 {
@@ -242,7 +285,13 @@ func (c *caseT) round3(m *member) {
 		fx.Must(err)
 		dev := ""
 		foreign := false
-		switch r.Intn(4) {
+		switch r.Intn(5) {
+		case 4: // a proof made with a key the complainant does not own: it ties the "symmetric key" to the respondent's one-time key
+			// only, not to the complainant's (the second of the two relations holds, the first does not)
+			kp := tss.Scalar(append([]byte{1}, r.Bytes(31)...))
+			sig, keySym, err = tss.SignComplaint(m.r1.OneTimePubKey, o.r1.OneTimePubKey, kp)
+			fx.Must(err)
+			dev = "forged-keysym-proof"
 		case 3: // a second complaint in ANOTHER (honest) member's name appended to the message: ValidateBasic must reject it
 			dev = "foreign-complainant"
 			foreign = true
